@@ -2142,10 +2142,14 @@ def preprocess_file(
     def expand_func_macro(def_name: str, def_value: tuple[str, str]):
         def_args, sub = def_value
         def_args = def_args.split(",")
-        regex = re.compile(rf"\b{def_name}\s*\({','.join(['(.*)']*len(def_args))}\)")
+        regex = re.compile(
+            rf"\b{re.escape(def_name)}\s*\({','.join(['(.*)']*len(def_args))}\)"
+        )
 
+        # Backslashes of the macro body are literal text, not template escapes
+        sub = sub.replace("\\", "\\\\")
         for i, arg in enumerate(def_args, start=1):
-            sub = re.sub(rf"\b({arg.strip()})\b", rf"\\{i}", sub)
+            sub = re.sub(rf"\b({re.escape(arg.strip())})\b", rf"\\{i}", sub)
 
         return regex, sub
 
@@ -2356,11 +2360,14 @@ def preprocess_file(
                 if isinstance(value, tuple):
                     def_regex = expand_func_macro(def_tmp, value)
                 else:
-                    def_regex = re.compile(rf"\b{def_tmp}\b")
+                    def_regex = re.compile(rf"\b{re.escape(def_tmp)}\b")
                 def_regexes[def_tmp] = def_regex
 
             if isinstance(def_regex, tuple):
                 def_regex, value = def_regex
+            else:
+                # Object-like macro bodies are inserted verbatim
+                value = value.replace("\\", "\\\\")
 
             line_new, nsubs = def_regex.subn(value, line)
             if nsubs > 0:
